@@ -175,7 +175,13 @@ class EncodeState:
                 else:
                     raw_value = internal_value
 
-            if raw_value.bit_length() > bit_length:
+            # the sign occupies one bit, i.e. the magnitude of the
+            # value is limited to bit_length - 1 bits (only the two's
+            # complement can represent the additional value -2^(n-1))
+            limit = 1 << max(bit_length - 1, 0)
+            min_value = -limit if base_type_encoding in (None, Encoding.TWOC) else -limit + 1
+            if base_type_encoding in (None, Encoding.ONEC, Encoding.TWOC, Encoding.SM) and not (
+                    min_value <= internal_value < limit) or raw_value.bit_length() > bit_length:
                 odxraise(
                     f"The value '{internal_value!r}' cannot be encoded using "
                     f"{bit_length} bits.", EncodeError)
